@@ -109,9 +109,22 @@ func (s *Session) reset() {
 	s.Features = s.extractStreamFeatures()
 }
 
+// decodeNext decodes the next element sent by the server into v. The end of the stream is an error.
+func (s *Session) decodeNext(v interface{}) error {
+	t, err := stanza.NextXmppToken(s.transport.GetDecoder())
+	if err != nil {
+		return err
+	}
+	se, ok := t.(xml.StartElement)
+	if !ok {
+		return errors.New("stream closed by the server")
+	}
+	return s.transport.GetDecoder().DecodeElement(v, &se)
+}
+
 func (s *Session) extractStreamFeatures() (f stanza.StreamFeatures) {
 	// extract stream features
-	if s.err = s.transport.GetDecoder().Decode(&f); s.err != nil {
+	if s.err = s.decodeNext(&f); s.err != nil {
 		s.err = errors.New("stream open decode features: " + s.err.Error())
 	}
 	return
@@ -133,7 +146,7 @@ func (s *Session) startTlsIfSupported(o *Config) {
 		fmt.Fprintf(s.transport, "<starttls xmlns='urn:ietf:params:xml:ns:xmpp-tls'/>")
 
 		var k stanza.TLSProceed
-		if s.err = s.transport.GetDecoder().DecodeElement(&k, nil); s.err != nil {
+		if s.err = s.decodeNext(&k); s.err != nil {
 			s.err = errors.New("expecting starttls proceed: " + s.err.Error())
 			return
 		}
@@ -247,7 +260,7 @@ func (s *Session) bind(o *Config) {
 
 	// Check the server response
 	var iq stanza.IQ
-	if s.err = s.transport.GetDecoder().Decode(&iq); s.err != nil {
+	if s.err = s.decodeNext(&iq); s.err != nil {
 		s.err = errors.New("error decoding iq bind result: " + s.err.Error())
 		return
 	}
@@ -300,7 +313,7 @@ func (s *Session) rfc3921Session() {
 			return
 		}
 
-		if s.err = s.transport.GetDecoder().Decode(&iq); s.err != nil {
+		if s.err = s.decodeNext(&iq); s.err != nil {
 			s.err = errors.New("expecting iq result after session open: " + s.err.Error())
 			return
 		}
